@@ -40,6 +40,62 @@ pub use crate::mainline_dht::{DhtBuilder, MainlineDht};
 
 pub type IpVersion = crate::action::IpVersion;
 
+/// Verification hooks: paths to internal (already `pub`) items of private modules plus the
+/// controllable clock, for the model-checking harness in /verif. Adds no behaviour.
+#[cfg(feature = "verif")]
+pub mod verif {
+    pub use crate::bucket::{Bucket, MAX_BUCKET_SIZE};
+    pub use crate::node::{Node, NodeHandle, NodeStatus};
+    pub use crate::storage::AnnounceStorage;
+    pub use crate::table::{leading_bit_count, ClosestNodes, RoutingTable, MAX_BUCKETS};
+    pub use crate::time::verif_clock as clock;
+    pub use crate::token::{Token, TokenStore};
+    pub use crate::transaction::{AIDGenerator, ActionID, MIDGenerator, TransactionID};
+    pub use crate::verif_probe as probe;
+}
+
+/// Verification hooks: thread-local probes written by the handler and the refresh action.
+#[cfg(feature = "verif")]
+pub mod verif_probe {
+    use std::cell::Cell;
+
+    thread_local! {
+        static REFRESH_ROUNDS: Cell<u64> = const { Cell::new(0) };
+        static TIMER_QUEUE_LEN: Cell<usize> = const { Cell::new(0) };
+        static TIMER_QUEUE_MAX: Cell<usize> = const { Cell::new(0) };
+    }
+
+    pub(crate) fn refresh_round_started() {
+        REFRESH_ROUNDS.with(|c| c.set(c.get() + 1));
+    }
+
+    pub(crate) fn timer_queue_len(len: usize) {
+        TIMER_QUEUE_LEN.with(|c| c.set(len));
+        TIMER_QUEUE_MAX.with(|c| c.set(c.get().max(len)));
+    }
+
+    /// Number of refresh rounds started on this thread since the last `reset`.
+    pub fn refresh_rounds() -> u64 {
+        REFRESH_ROUNDS.with(|c| c.get())
+    }
+
+    /// Length of the handler's timer queue when the handler last looked at it.
+    pub fn last_timer_queue_len() -> usize {
+        TIMER_QUEUE_LEN.with(|c| c.get())
+    }
+
+    /// Largest timer queue length seen since the last `reset`.
+    pub fn max_timer_queue_len() -> usize {
+        TIMER_QUEUE_MAX.with(|c| c.get())
+    }
+
+    pub fn reset() {
+        REFRESH_ROUNDS.with(|c| c.set(0));
+        TIMER_QUEUE_LEN.with(|c| c.set(0));
+        TIMER_QUEUE_MAX.with(|c| c.set(0));
+    }
+}
+
 use async_trait::async_trait;
 use std::{io, net::SocketAddr};
 
